@@ -13,8 +13,8 @@ Tie to /repo:
       axis lengths 1/2/4 with integer data, slices), DESIGN §4 tolerance otherwise.
       Round 4: the `adjoint` property of the plain DFT operators (model dftAdjointNd, op `dftadj`:
       values, NotImplementedError for exponents != 2, and the ratio N of C18.dft_true_adjoint between
-      <op u, v> and <u, op.adjoint v>) and the default-range construction (op `dftrangector`,
-      one-point axes: finding F18g).
+      <op u, v> and <u, op.adjoint v>) and the default-range construction (op `dftrangector`:
+      status and per-axis extent of op.range; one-point axes, /repo fix 02139e2).
 ORACLE (independent of the model, on the real code): numpy.fft on the raw arrays, the direct
 O(n^2) sum of the Fourier integral discretisation, inverse(forward(x)) = x, numpy vs pyfftw,
 in-place vs out-of-place, plan/temporary reuse, stride = 2π/(n s), prefix property of the
@@ -552,6 +552,16 @@ def dft_configs(ctx):
                         for impl in ('numpy', 'pyfftw'):
                             cfgs.append((shape, axes, dt, hc, sign, impl))
     rng.shuffle(cfgs)
+    # one-point axes, transformed or not (default range: /repo fix 02139e2), full oracle + model
+    onept = [((1,), (0,)), ((1, 4), (0, 1)), ((1, 4), (1,)), ((4, 1), (0, 1)), ((4, 1, 2), (0, 2)),
+             ((4, 1, 2), (1,)), ((3, 1), (1, 0))]
+    extra = [(sh, ax, dt, hc, '-', impl) for sh, ax in onept for dt in ('float64', 'complex128')
+             for hc in (False, True) if not (hc and dt == 'complex128') for impl in ('numpy', 'pyfftw')]
+    extra += [(sh, ax, 'complex128', False, '+', 'numpy') for sh, ax in onept]
+    if ctx.quick:
+        rng.shuffle(extra)
+        extra = extra[:16]
+    cfgs = extra + cfgs
     if ctx.quick:
         keep = {}
         for c in cfgs:
@@ -560,7 +570,8 @@ def dft_configs(ctx):
             k = (len(shape), par[-1], len(axes), hc, sign, impl, dt[0])
             if len(keep.setdefault(k, [])) < 2:
                 keep[k].append(c)
-        cfgs = [c for v in keep.values() for c in v]
+        cfgs = [c for v in keep.values() for c in v] + [c for c in extra if c not in
+                                                         [d for v in keep.values() for d in v]]
         # every 1-d length with halfcomplex, both back-ends (the odd/even inverse table)
         cfgs += [((n,), (0,), 'float64', True, '-', impl) for n in range(2, 10)
                  for impl in ('numpy', 'pyfftw')]
@@ -656,6 +667,8 @@ def run_dft_case(ctx, B, desc, oracle_only=False):
     ctx.case(sig if nontrivial else None,
              sample=dict(desc, x=str(x.ravel()[:6])) if x.size <= 6 else None)
     ctx.hit('dft/{}/{}/{}'.format(impl, 'hc' if hc else 'full', 'plus' if sign == '+' else 'minus'))
+    if 1 in shape:
+        ctx.hit('dft/one-point-axis')
     F, e = safe(lambda: DFT(sp, axes=axes, sign=sign, halfcomplex=hc, impl=impl))
     if e is not None:
         viol(ctx, dft_key(desc, 'constructor'), repr(e)[:300], desc)
@@ -786,6 +799,264 @@ def run_dft_case(ctx, B, desc, oracle_only=False):
 
 
 # --------------------------------------------------------------------------
+# pyfftw_call / _pyfftw_check_args called directly (round 5): validation branches, plan reuse,
+# wisdom import/export, alignment, threads, FFTW-style flags
+
+def _unaligned(shape, dtype):
+    n = int(np.prod(shape))
+    item = np.dtype(dtype).itemsize
+    buf = np.zeros(n * item + 1, dtype=np.uint8)
+    a = np.frombuffer(buf.data, dtype=dtype, count=n, offset=1).reshape(shape)
+    return a
+
+
+def run_pyfftw_direct(ctx, B, oracle_only=False):
+    """ORACLE: every accepted call equals numpy.fft on a copy (with the documented normalisation)
+    and leaves its input intact; every documented misuse raises ValueError."""
+    import os
+    import tempfile
+    import pickle
+    from odl.trafos.backends.pyfftw_bindings import pyfftw_call, PYFFTW_AVAILABLE
+    if not PYFFTW_AVAILABLE:
+        return
+    rng = ctx.rng
+
+    def key(what):
+        return 'pyfftw_call direct ' + what
+
+    def ref_of(x, axes, direction, hc, ni, out_shape):
+        ax = tuple(range(x.ndim)) if axes is None else tuple(a % x.ndim for a in (
+            (axes,) if isinstance(axes, int) else axes))
+        if direction == 'forward':
+            return np.fft.rfftn(x, axes=ax) if hc else np.fft.fftn(x, axes=ax)
+        N = float(np.prod([out_shape[a] for a in ax]))
+        if hc:
+            r = np.fft.irfftn(x, s=[out_shape[a] for a in ax], axes=ax)
+        else:
+            r = np.fft.ifftn(x, axes=ax)
+        return r if ni else r * N
+
+    # ---- accepted calls
+    cases = []
+    for shape, axes in (((4,), None), ((5,), (0,)), ((2, 4), (1,)), ((3, 4), (-1, 0)), ((4, 2, 3), (0, 2)),
+                        ((2, 4), 1), ((70, 64), None)):
+        for direction in ('forward', 'backward', 'FFTW_FORWARD', 'FFTW_BACKWARD'):
+            for hc in (False, True):
+                for ni in (False, True):
+                    for effort in ('estimate', 'measure', 'FFTW_ESTIMATE'):
+                        cases.append((shape, axes, direction, hc, ni, effort))
+    rng.shuffle(cases)
+    if ctx.quick:
+        keep = {}
+        for c in cases:
+            k = (c[2], c[3], c[4], c[5] == 'measure', c[0] == (70, 64))
+            keep.setdefault(k, c)
+        cases = list(keep.values())
+    for shape, axes, direction, hc, ni, effort in cases:
+        fwd = direction.lower().endswith('forward')
+        ax = tuple(range(len(shape))) if axes is None else tuple(a % len(shape) for a in (
+            (axes,) if isinstance(axes, int) else axes))
+        hshape = list(shape)
+        if hc:
+            hshape[ax[-1]] = shape[ax[-1]] // 2 + 1
+        real_side = rand_array(rng, shape, 'float64' if hc else 'complex128')
+        if fwd:
+            x = real_side
+            out = np.empty(tuple(hshape), dtype='complex128')
+        else:
+            x = (np.fft.rfftn(real_side, axes=ax) if hc else rand_array(rng, shape, 'complex128'))
+            x = np.ascontiguousarray(x)
+            out = np.empty(shape, dtype='float64' if hc else 'complex128')
+        desc = {'kind': 'pyfftw_direct', 'shape': list(shape), 'axes': axes if axes is None or isinstance(
+            axes, int) else list(axes), 'direction': direction, 'hc': hc, 'ni': ni, 'effort': effort}
+        ctx.case(('pyfftw_direct', shape, ax, direction, hc, ni, effort))
+        ctx.hit('pyfftw_call/direct/{}/{}'.format('forward' if fwd else 'backward', 'hc' if hc else 'full'))
+        if np.prod(shape) > 4096:
+            ctx.hit('pyfftw_call/direct/threads=cpu_count')
+        if axes is None:
+            ctx.hit('pyfftw_call/direct/axes=None')
+        ref = ref_of(x, axes, 'forward' if fwd else 'backward', hc, ni, shape)
+        x0 = x.copy()
+        res, e = safe(lambda: pyfftw_call(x, out, direction=direction, axes=axes, halfcomplex=hc,
+                                          normalise_idft=ni, planning_effort=effort))
+        tolv = 1e-10 * max(1.0, float(np.max(np.abs(ref)))) * max(1, np.prod(shape) / 64)
+        k = key('{} halfcomplex={} normalise_idft={} effort={} ndim={}'.format(
+            'forward' if fwd else 'backward', hc, ni, effort.lower().replace('fftw_', ''), len(shape)))
+        if direction.startswith('FFTW_'):
+            k += ' direction-flag=' + direction
+        if e is not None or not np.max(np.abs(out - ref)) <= tolv:
+            viol(ctx, k, 'differs from numpy.fft: {!r}'.format(
+                e if e is not None else float(np.max(np.abs(out - ref))))[:300], desc)
+            continue
+        # a backward half-complex transform in >= 2 dimensions destroys its input in FFTW itself
+        # (documented by _pyfftw_destroys_input); every other call must leave it intact
+        if not (not fwd and hc and len(shape) > 1) and not np.array_equal(x, x0):
+            viol(ctx, k + ' input-modified', 'input array changed', desc)
+        # reuse of the returned plan on other data of the same layout, out-of-place and aliased
+        ctx.hit('pyfftw_call/direct/plan-reuse')
+        x2 = x0 * 0.5 + 1
+        if not fwd and hc:
+            x2 = np.ascontiguousarray(np.fft.rfftn(rand_array(rng, shape, 'float64'), axes=ax))
+        ref2 = ref_of(x2, axes, 'forward' if fwd else 'backward', hc, ni, shape)
+        out2 = np.empty_like(out)
+        x2c = x2.copy()
+        res2, e2 = safe(lambda: pyfftw_call(x2c, out2, direction=direction, axes=axes, halfcomplex=hc,
+                                            normalise_idft=ni, fftw_plan=res))
+        if e2 is not None or res2 is not res or not np.max(np.abs(out2 - ref2)) <= tolv * 2:
+            viol(ctx, k + ' plan-reuse', 'second call with fftw_plan= : {!r} same-plan={}'.format(
+                e2 if e2 is not None else float(np.max(np.abs(out2 - ref2))), res2 is res)[:300], desc)
+        if not hc:
+            # the out-of-place plan must NOT be executed for an aliased call: a new plan is made
+            ctx.hit('pyfftw_call/direct/plan-aliasing-mismatch')
+            x3 = x2.copy()
+            res3, e3 = safe(lambda: pyfftw_call(x3, x3, direction=direction, axes=axes, halfcomplex=False,
+                                                normalise_idft=ni, fftw_plan=res, planning_effort=effort))
+            if e3 is not None or res3 is res or not np.max(np.abs(x3 - ref2)) <= tolv * 2:
+                viol(ctx, k + ' plan-aliasing', 'aliased call with an out-of-place plan: {!r} new-plan={}'.format(
+                    e3 if e3 is not None else float(np.max(np.abs(x3 - ref2))), res3 is not res)[:300], desc)
+        if not oracle_only and len(shape) == 1 and shape[0] in (1, 2, 4) and not hc:
+            # model: pyfftwCall (the normalisation juggling) on one axis, exact
+            B.add('pyfftwcall backward={} ni={} n={} x={}'.format(int(not fwd), int(ni), shape[0], cl(x0)),
+                  lambda ans, out=out.copy(), desc=desc: compare_arr(ctx, desc, out, ans, 'complex128', True,
+                                                                     'pyfftw_call'))
+    # ---- wisdom import / export: file name (missing, existing) and file handle
+    tmpd = tempfile.mkdtemp(prefix='c18wis')
+    try:
+        x = rand_array(rng, (8,), 'complex128')
+        ref = np.fft.fftn(x)
+        wfile = os.path.join(tmpd, 'w.pkl')
+        steps = [('import-missing-file', dict(import_wisdom=os.path.join(tmpd, 'nope.pkl'))),
+                 ('export-filename', dict(export_wisdom=wfile)),
+                 ('import-filename', dict(import_wisdom=wfile))]
+        for name, kw in steps:
+            ctx.case(('pyfftw_wisdom', name))
+            ctx.hit('pyfftw_call/direct/wisdom/' + name)
+            out = np.empty(8, dtype='complex128')
+            r_, e = safe(lambda: pyfftw_call(x.copy(), out, planning_effort='measure', **kw))
+            if e is not None or not np.max(np.abs(out - ref)) <= 1e-9:
+                viol(ctx, key('wisdom ' + name), '{!r}'.format(e if e is not None else float(
+                    np.max(np.abs(out - ref))))[:300], {'kind': 'pyfftw_direct_wisdom'})
+        ok, e = safe(lambda: os.path.getsize(wfile) > 0 and bool(pickle.load(open(wfile, 'rb'))))
+        if e is not None or not ok:
+            viol(ctx, key('wisdom export-filename'), 'no wisdom written: {!r}'.format(e)[:200],
+                 {'kind': 'pyfftw_direct_wisdom'})
+        for name in ('export-handle', 'import-handle'):
+            ctx.case(('pyfftw_wisdom', name))
+            ctx.hit('pyfftw_call/direct/wisdom/' + name)
+            out = np.empty(8, dtype='complex128')
+            hfile = os.path.join(tmpd, 'h.pkl')
+
+            def call():
+                with open(hfile, 'wb' if name == 'export-handle' else 'rb') as fh:
+                    return pyfftw_call(x.copy(), out, planning_effort='measure', **{
+                        'export_wisdom' if name == 'export-handle' else 'import_wisdom': fh})
+            r_, e = safe(call)
+            if e is not None or not np.max(np.abs(out - ref)) <= 1e-9:
+                viol(ctx, key('wisdom ' + name), '{!r}'.format(e if e is not None else float(
+                    np.max(np.abs(out - ref))))[:300], {'kind': 'pyfftw_direct_wisdom'})
+    finally:
+        import shutil
+        shutil.rmtree(tmpd, ignore_errors=True)
+    # ---- documented misuse: ValueError, and the arrays untouched
+    c8 = lambda shape: np.zeros(shape, dtype='complex128')
+    f8 = lambda shape: np.zeros(shape, dtype='float64')
+    bad = [
+        ('unaligned-input', lambda: pyfftw_call(_unaligned((4,), 'complex128'), c8((4,)))),
+        ('unaligned-output', lambda: pyfftw_call(c8((4,)), _unaligned((4,), 'complex128'))),
+        ('duplicate-axes', lambda: pyfftw_call(c8((4, 4)), c8((4, 4)), axes=(0, 0))),
+        ('duplicate-axes-negative', lambda: pyfftw_call(c8((4, 4)), c8((4, 4)), axes=(1, -1))),
+        ('forward-out-shape', lambda: pyfftw_call(c8((4,)), c8((5,)))),
+        ('forward-hc-out-shape', lambda: pyfftw_call(f8((4,)), c8((4,)), halfcomplex=True)),
+        ('forward-hc-complex-input', lambda: pyfftw_call(c8((4,)), c8((3,)), halfcomplex=True)),
+        ('forward-out-dtype', lambda: pyfftw_call(c8((4,)), np.zeros(4, dtype='complex64'))),
+        ('forward-real-out-dtype', lambda: pyfftw_call(f8((4,)), np.zeros(4, dtype='complex64'))),
+        ('backward-in-shape', lambda: pyfftw_call(c8((5,)), c8((4,)), direction='backward')),
+        ('backward-hc-in-shape', lambda: pyfftw_call(c8((4,)), f8((4,)), direction='backward', halfcomplex=True)),
+        ('backward-hc-complex-output', lambda: pyfftw_call(c8((3,)), c8((4,)), direction='backward',
+                                                           halfcomplex=True)),
+        ('backward-in-dtype', lambda: pyfftw_call(np.zeros(4, dtype='complex64'), c8((4,)), direction='backward')),
+        ('backward-real-out-without-hc', lambda: pyfftw_call(np.zeros(4, dtype='complex64'), f8((4,)),
+                                                              direction='backward')),
+    ]
+    for name, f in bad:
+        ctx.case(('pyfftw_bad', name))
+        ctx.hit('pyfftw_call/direct/rejects')
+        r_, e = safe(f)
+        got = 'ok' if e is None else exc_kind(e)
+        if got != 'err:value':
+            viol(ctx, key('misuse ' + name), 'documented ValueError, got {}'.format(got if e is None else repr(e))[:300],
+                 {'kind': 'pyfftw_direct_bad', 'name': name})
+    # ---- the generic DiscreteFourierTransformBase._call_pyfftw (un-normalised transform in the
+    # direction of the sign; `flags=` in FFTW form) reached through the base class itself
+    odl = _odl()
+    from odl.trafos.fourier import DiscreteFourierTransformBase as DBase
+    for sign in ('-', '+'):
+        for flags in (None, ('FFTW_ESTIMATE',), ('FFTW_MEASURE', 'FFTW_DESTROY_INPUT'),
+                      ('FFTW_UNALIGNED', 'FFTW_ESTIMATE'), ()):
+            ctx.case(('dft_base', sign, flags))
+            ctx.hit('dft/base-class-direct')
+            sp = odl.uniform_discr([0, 0], [1, 1], (3, 4), dtype='complex128')
+            x = rand_array(rng, (3, 4), 'complex128')
+            ref = np.fft.fftn(x) if sign == '-' else np.fft.ifftn(x) * 12
+
+            def callb():
+                op = DBase(inverse=False, domain=sp, sign=sign, impl='pyfftw')
+                kw = {} if flags is None else {'flags': flags}
+                y1 = op(sp.element(x.copy()), **kw).asarray()
+                y2 = op(sp.element(x.copy()), **kw).asarray()      # cached plan
+                return y1, y2
+            r_, e = safe(callb)
+            if e is not None or not max(np.max(np.abs(r_[0] - ref)), np.max(np.abs(r_[1] - ref))) <= 1e-9:
+                viol(ctx, 'dft base-class pyfftw sign={} flags={}'.format(sign, flags), '{!r}'.format(
+                    e if e is not None else [float(np.max(np.abs(a - ref))) for a in r_])[:300],
+                    {'kind': 'pyfftw_direct_base'})
+    # ---- FourierTransform(Inverse)._postprocess with its DEFAULT output (temporaries / new array)
+    from odl.trafos import FourierTransform as FT
+    for dt in ('complex128', 'float64'):
+        for hc in ((False, True) if dt == 'float64' else (False,)):
+            for tmp in (False, True):
+                ctx.case(('ft_postprocess', dt, hc, tmp))
+                ctx.hit('ft/postprocess-default-out')
+                sp = odl.uniform_discr([-1, -1], [1, 1], (4, 5), dtype=dt)
+
+                def mkops():
+                    F = FT(sp, halfcomplex=hc, impl='numpy')
+                    Fi = F.inverse
+                    if tmp:
+                        F.create_temporaries()
+                        Fi.create_temporaries()
+                    return F, Fi
+                ops, e0 = safe(mkops)
+                if e0 is not None:
+                    viol(ctx, 'ft _postprocess constructor', repr(e0)[:200], {'kind': 'pyfftw_direct_post'})
+                    continue
+                F, Fi = ops
+                y = rand_array(rng, F.range.shape, 'complex128')
+                z = rand_array(rng, sp.shape, dt)
+                z = z if hc else z.astype('complex128')
+                for nm, op_, arr in (('forward', F, y), ('inverse', Fi, z)):
+                    r_, e = safe(lambda: (np.array(op_._postprocess(arr.copy())),
+                                          np.array(op_._postprocess(arr.copy(), out=np.empty_like(arr)))))
+                    if e is not None or not np.allclose(r_[0], r_[1], rtol=1e-12, atol=1e-12):
+                        viol(ctx, 'ft {} _postprocess default-out dtype={} halfcomplex={} temporaries={}'.format(
+                            nm, dt, hc, tmp), 'op._postprocess(x) differs from op._postprocess(x, out=new): '
+                            '{!r}'.format(e if e is not None else float(np.max(np.abs(r_[0] - r_[1]))))[:300],
+                            {'kind': 'pyfftw_direct_post'})
+    # ---- real input without halfcomplex (internal complex copy), forward, out-of-place
+    for effort in ('estimate', 'measure'):
+        ctx.case(('pyfftw_direct_r2c', effort))
+        ctx.hit('pyfftw_call/direct/real-input-full')
+        x = rand_array(rng, (3, 4), 'float64')
+        out = np.empty((3, 4), dtype='complex128')
+        x0 = x.copy()
+        r_, e = safe(lambda: pyfftw_call(x, out, planning_effort=effort))
+        if e is not None or not np.max(np.abs(out - np.fft.fftn(x0))) <= 1e-9 or not np.array_equal(x, x0):
+            viol(ctx, key('forward real-input full effort=' + effort), '{!r}'.format(
+                e if e is not None else float(np.max(np.abs(out - np.fft.fftn(x0)))))[:300],
+                {'kind': 'pyfftw_direct_r2c'})
+
+
+# --------------------------------------------------------------------------
 # the `adjoint` property of the plain DFT operators (round 4)
 
 def adjoint_configs(ctx):
@@ -857,23 +1128,32 @@ def run_adjoint_case(ctx, B, desc, oracle_only=False):
     op, e = safe(lambda: mk(False))
     one = 1 in fshape
     ctx.hit('dftctor/default-range/' + ('one-point-axis' if one else 'ok'))
+    if e is not None:
+        # /repo fix 02139e2: the default range exists for every shape, one-point axes included
+        viol(ctx, ('dft constructor default-range one-point-axis ndim={}'.format(len(shape)) if one
+                   else adj_key(desc, 'constructor')), 'shape {}: {!r}'.format(shape, e)[:300], desc)
     if not oracle_only:
-        got = 'ok' if e is None else exc_kind(e)
+        if e is None:
+            ext, ee = safe(lambda: [fs(float(b - a)) for a, b in zip(
+                (op.domain if inv else op.range).min_pt, (op.domain if inv else op.range).max_pt)])
+            got = 'ok extent=' + (','.join(ext) if ee is None else repr(ee)[:60])
+        else:
+            got = exc_kind(e)
         B.add('dftrangector fshape={} given=0'.format(nl(fshape)),
               lambda ans, got=got: (ans == got) or ctx.disagree(desc, 'default range: ' + got, ans[:100]))
-    if e is not None:
-        if one:
-            viol(ctx, 'dft constructor default-range one-point-axis ndim={}'.format(len(shape)),
-                 'shape {}: {!r}'.format(shape, e)[:300], desc)
-            ctx.hit('dftctor/given-range')
-            op, e = safe(lambda: mk(True))
-            if not oracle_only:
-                got = 'ok' if e is None else exc_kind(e)
-                B.add('dftrangector fshape={} given=1'.format(nl(fshape)),
-                      lambda ans, got=got: (ans == got) or ctx.disagree(desc, 'given range: ' + got, ans[:100]))
+    if one or e is not None:
+        ctx.hit('dftctor/given-range')
+        opg, eg = safe(lambda: mk(True))
+        if eg is not None:
+            viol(ctx, adj_key(desc, 'constructor-given-range'), repr(eg)[:300], desc)
+        if not oracle_only:
+            gotg = 'ok' if eg is None else exc_kind(eg)
+            B.add('dftrangector fshape={} given=1'.format(nl(fshape)),
+                  lambda ans, gotg=gotg: (ans == gotg) or ctx.disagree(desc, 'given range: ' + gotg, ans[:100]))
         if e is not None:
-            viol(ctx, adj_key(desc, 'constructor'), repr(e)[:300], desc)
-            return
+            op, e = opg, eg
+    if e is not None:
+        return
     A, e = safe(lambda: op.adjoint)
     if e is not None:
         viol(ctx, adj_key(desc, 'not-exposed'), 'exponent 2 on both sides but .adjoint raised {!r}'.format(e)[:300],
@@ -896,6 +1176,24 @@ def run_adjoint_case(ctx, B, desc, oracle_only=False):
         viol(ctx, adj_key(desc, 'call'), 'op / op.adjoint / op.inverse raised {!r}'.format(e)[:300], desc)
         return
     opu, Av, Iv = res
+    # the property's own oracle on this operator: equals numpy.fft (also on one-point axes)
+    fsign_ = sign if not inv else ('-' if sign == '+' else '+')
+    if inv:
+        Nax = float(np.prod([shape[a] for a in axes]))
+        if hc:
+            refu = np.fft.irfftn(u.astype('complex128'), s=[shape[a] for a in axes], axes=axes)
+        elif fsign_ == '-':
+            refu = np.fft.ifftn(u.astype('complex128'), axes=axes)
+        else:
+            refu = np.conj(np.fft.ifftn(np.conj(u.astype('complex128')), axes=axes))
+        if realdom:
+            refu = refu.real
+    else:
+        refu = np_reference_dft(u, axes, fsign_, hc)
+    if opu.shape != refu.shape or not np.max(np.abs(opu - refu)) <= tol_for(
+            dt, max(1.0, float(np.max(np.abs(refu))) if refu.size else 1.0)):
+        probs.append(('equals-numpy-fft', 'op(u) != numpy.fft reference: {}'.format(
+            float(np.max(np.abs(opu - refu))) if opu.shape == refu.shape else (opu.shape, refu.shape))))
     tolv = tol_for(dt, max(1.0, float(np.max(np.abs(Iv))) if Iv.size else 1.0))
     if Av.shape != Iv.shape or not np.max(np.abs(Av - Iv)) <= tolv:
         probs.append(('equals-inverse', "documented 'adjoint equal to the inverse': op.adjoint(v) != "
@@ -1454,6 +1752,26 @@ def run_wavelet_case(ctx, B, desc, oracle_only=False):
     elif xr.shape != x.shape or not np.max(np.abs(xr - x)) <= tol * 50 * max(1, np.max(np.abs(x))):
         probs.append('W.inverse(W(x)) != x: max dev {}'.format(
             np.max(np.abs(xr - x)) if xr.shape == x.shape else xr.shape))
+    # ORACLE 2b: `scales()` (level index of every coefficient, same flattening as W(x)): 0 on the
+    # approximation block, i on every detail block of list position i; same for the inverse operator;
+    # is_biorthogonal is PyWavelets' flag
+    ctx.hit('wavelet/scales')
+    lev_blocks = [np.zeros(np.asarray(ref[0]).size, dtype=int)]
+    for i, d in enumerate(ref[1:], start=1):
+        lev_blocks += [np.full(np.asarray(d[k]).size, i) for k in sorted(d)]
+    exp_scales = np.concatenate(lev_blocks)
+    scl, e = safe(lambda: (W.scales().asarray(), W.inverse.scales().asarray(), W.is_biorthogonal,
+                          W.inverse.is_biorthogonal))
+    if e is not None:
+        probs.append('scales()/is_biorthogonal raised {!r}'.format(e))
+    else:
+        for nm, arr in (('W', scl[0]), ('W.inverse', scl[1])):
+            if arr.shape != exp_scales.shape or not np.array_equal(np.asarray(arr, dtype=float), exp_scales):
+                probs.append('{}.scales() is not the level index of the blocks of W(x): {} vs {}'.format(
+                    nm, np.asarray(arr).ravel()[:12], exp_scales[:12]))
+        if scl[2] != pywt.Wavelet(wv).biorthogonal or scl[3] != scl[2]:
+            probs.append('is_biorthogonal = {} / {} but pywt says {}'.format(scl[2], scl[3],
+                                                                             pywt.Wavelet(wv).biorthogonal))
     # ORACLE 3: adjoint identity for orthogonal wavelets with periodization on dyadic sizes
     lv = W.nlevels
     dyadic = all(shape[a] % (2 ** lv) == 0 for a in ax_p) and lv >= 1
@@ -1492,6 +1810,11 @@ def run_wavelet_case(ctx, B, desc, oracle_only=False):
         if ans != 'ok ' + ' '.join(impl_sl):
             ctx.disagree(desc, 'slices ' + ' '.join(impl_sl)[:300], ans[:300])
     B.add('ravel a={} d={}'.format(a_w, d_w), cb)
+    if scl is not None and np.asarray(scl[0]).size <= 600:
+        impl_scales = ','.join(str(int(v)) for v in np.asarray(scl[0]).ravel().tolist())
+        B.add('scales a={} d={}'.format(a_w, d_w),
+              lambda ans, impl_scales=impl_scales: (ans == 'ok s=' + impl_scales) or ctx.disagree(
+                  desc, 'scales ' + impl_scales[:200], ans[:200]))
     if carr.size <= 400:
         with warnings.catch_warnings():
             warnings.simplefilter('ignore')
@@ -2179,7 +2502,14 @@ EXPECTED_BRANCHES = [
     'dft/pyfftw/full/plus', 'wavelet/adjoint/default', 'wavelet/adjoint/weighting',
     'wavelet/adjoint/bdry', 'adjoint/forward-op/full', 'adjoint/forward-op/hc', 'adjoint/inverse-op/full',
     'adjoint/inverse-op/hc', 'adjoint/scaled-identity', 'adjoint/exponent-not-2', 'dftctor/default-range/one-point-axis',
-    'dftctor/default-range/ok', 'dftctor/given-range', 'ctor/rejects', 'ctor/accepts', 'padmode/err', 'padmode/ok']
+    'dftctor/default-range/ok', 'dftctor/given-range', 'dft/one-point-axis', 'wavelet/scales', 'dft/base-class-direct', 'ft/postprocess-default-out',
+    'pyfftw_call/direct/forward/full', 'pyfftw_call/direct/forward/hc',
+    'pyfftw_call/direct/backward/full', 'pyfftw_call/direct/backward/hc', 'pyfftw_call/direct/plan-reuse',
+    'pyfftw_call/direct/plan-aliasing-mismatch', 'pyfftw_call/direct/threads=cpu_count',
+    'pyfftw_call/direct/axes=None', 'pyfftw_call/direct/wisdom/import-missing-file',
+    'pyfftw_call/direct/wisdom/export-filename', 'pyfftw_call/direct/wisdom/import-filename',
+    'pyfftw_call/direct/wisdom/export-handle', 'pyfftw_call/direct/wisdom/import-handle',
+    'pyfftw_call/direct/rejects', 'pyfftw_call/direct/real-input-full', 'ctor/rejects', 'ctor/accepts', 'padmode/err', 'padmode/ok']
 
 _STATE = {'extraction_broken': False}
 
@@ -2212,6 +2542,7 @@ def run(ctx):
     run_dft(ctx, B)
     run_dft_complex_hc(ctx, B)
     run_adjoint(ctx, B)
+    run_pyfftw_direct(ctx, B)
     B.flush()
     run_ft(ctx, B)
     B.flush()
@@ -2254,6 +2585,7 @@ def search(ctx, broken):
         B.lines, B.cbs = [], []
         run_dft(ctx, B, oracle_only=True)
         run_adjoint(ctx, B, oracle_only=True)
+        run_pyfftw_direct(ctx, B, oracle_only=True)
         run_ft(ctx, B, oracle_only=True)
         run_backend_agreement(ctx)
         run_padmode(ctx, B)
@@ -2277,6 +2609,8 @@ def replay(ctx, case):
         run_ft_case(ctx, B, case, oracle_only=True)
     elif kind == 'dftadj':
         run_adjoint_case(ctx, B, case, oracle_only=True)
+    elif kind and kind.startswith('pyfftw_direct'):
+        run_pyfftw_direct(ctx, B, oracle_only=True)
     elif kind == 'dftadj-exponent':
         run_adjoint(ctx, B, cfgs=[], oracle_only=True)
     elif kind == 'wavelet':
